@@ -528,8 +528,14 @@ func (h *manyCollection[I, O]) handleChangedPrimaryInputEvents(items []Event[I])
 					e.New = &newRes
 					h.collectionState.outputs[key] = newRes
 				} else {
-					if !oldExists && EnableAssertions {
-						panic(fmt.Sprintf("!oldExists and !newExists in %s(%T), how did we get here? for output key %v input key %v", h.collectionName, h, key, iKey))
+					if !oldExists {
+						if EnableAssertions {
+							panic(fmt.Sprintf("!oldExists and !newExists in %s(%T), how did we get here? for output key %v input key %v", h.collectionName, h, key, iKey))
+						}
+						// The output is already gone (it moved to another input, which was recomputed from a newer
+						// version than this one, and was removed with it). There is nothing to delete: do not send
+						// a Delete carrying a zero-valued object.
+						continue
 					}
 					e.Event = controllers.EventDelete
 					e.Old = &oldRes
